@@ -70,6 +70,25 @@ def run(ctx):
     ctx.cov["binding_selftest"].update(st)
     if not all(st.values()):
         raise vlib.NoVerdict("binding self-test failed: %s" % st)
+    # "... and to no one else": a replica applies entries that were proposed through another replica while a caller of
+    # its own is registered and waiting - nothing may reach that caller (replica D of the C04 harness, PartitionSMTrace)
+    import c04
+    import hnswfam
+    part = ctx.go_build("cmd/part", "part")
+    hist_path = ctx.path("maphist.ndjson")
+    keep, nh, hf = hnswfam.harvest_hist(hist_path)
+    ctx.tlc("PartitionMapGen", "PartitionMapGen.cfg", workers=2, timeout=600, keep_lines=keep, count=False)
+    hf.close()
+    cfgp = ctx.path("rcfg-c11.json")
+    json.dump({"index": {"metric": "euclidean", "algo": "simple", "M": 1, "MMax": 1, "MMax0": 2}, "np": 3, "dim": 3, "keys": ["a"],
+               "vals": 2, "ks": [1], "nids": 3, "maxlvl": 1, "stride": 16 if quick else 4, "offset": ctx.seed}, open(cfgp, "w"))
+    rtrace = ctx.path("rtrace-c11.ndjson")
+    ctx.run([part, "replicas", cfgp, hist_path, rtrace, str(ctx.seed), "8"], timeout=2400)
+    rv, rn = vlib.validate_trace(ctx, "PartitionSMTrace", "PartitionSMTrace.cfg", rtrace, c04.is_reset, chunk_events=60000)
+    mis = [v for v in rv if v[1] == "OutcomeMisdelivered"]
+    ctx.log("%d events of replicas with a waiting caller of their own: %d outcomes misdelivered" % (rn, len(mis)))
+    c04.report(ctx, rtrace, mis, "euclidean/simple")
+    ctx.cov["replica_applies_with_a_foreign_caller_waiting"] = sum(1 for line in open(rtrace) if '"r":"D"' in line)
     # the running system: a sequential client against three real server processes - every acknowledgement and every
     # definite refusal ("exists", "not found") has to be true of the item at that moment, through whichever node
     import clusfam
